@@ -564,8 +564,12 @@ static PARAMETERIZED_GATE_MATRICES: Lazy<HashMap<String, ParameterizedMatrix>> =
         (
             "RZ".to_string(),
             (|theta: Complex64| {
+                let _0 = real!(0.0);
                 let t = theta / 2.0;
-                array![[t.cos(), -t.sin()], [t.sin(), t.cos()]]
+                array![
+                    [t.cos() - imag!(1.0) * t.sin(), _0],
+                    [_0, t.cos() + imag!(1.0) * t.sin()]
+                ]
             }) as ParameterizedMatrix,
         ),
         (
